@@ -94,6 +94,7 @@ class FnContract:
         self.anchors = []    # (where, regex, Block)
         self.tags = set()
         self.opaque_body = False  # never verify the body, even when the unit asks (needs reason)
+        self.strbytes = False     # rule R31: string literals of this fn become byte slices
         self.trusted_reason = None
 
 class TypeSpec:
@@ -133,6 +134,8 @@ def parse(path):
                 fs.types[arg] = cur_type
             elif d == '@world':
                 cur_fn.world = True
+            elif d == '@strbytes':
+                cur_fn.strbytes = True
             elif d == '@ret':
                 cur_fn.ret = arg
             elif d == '@trusted':
